@@ -19,7 +19,7 @@ from checks import promsel as P
 def oracle_gap(c):
     """match() patterns of the recorded statements that the case's regex table does not hold: the interpreter answers false for
     them by default (not RE2's answer), so a difference on such a case is reported without claiming a failing input"""
-    known_p = {e["p"] for e in c.get("oracle") or []}
+    known_p = {e["p"] for e in c.get("oracle") or []} | set(c.get("gap_computed") or [])
     pats = set()
     for s in c.get("sqls") or []:
         pats |= {P.unquote("'" + m + "'") for m in re.findall(r"match\([A-Za-z_.]+, '((?:[^'\\]|\\.)*)'\)", s)}
@@ -104,6 +104,12 @@ def run(ck):
                 break
             mine.append("(rows %d %d %s %s %s %s)" % (c["id"], i, db, tree, P.sx_str(s), orc))
         if ok:
+            # statement patterns the Go-made table does not hold (only a changed planner builds them): answered by PromRegex.v
+            shim = {"id": c["id"], "sql": "\n".join(sqls), "oracle": c.get("oracle"), "db": c["db"]}
+            g = P.gap_line(shim)
+            if g:
+                c["gap_patterns"] = shim["gap_patterns"]
+                lines.append(g)
             lines += mine
             usable.append(c)
         else:
@@ -119,6 +125,10 @@ def run(ck):
     badcode = []
     for ln in out.splitlines():
         p = ln.split()
+        if len(p) >= 2 and p[0] == "gap":
+            for c in usable:
+                if c["id"] == int(p[1]):
+                    c["gap_computed"] = [x for x, okx in zip(c.get("gap_patterns") or [], p[2:]) if okx == "1"]
         if len(p) >= 4 and p[0] == "rows":
             cid, idx, code = int(p[1]), int(p[2]), int(p[3])
             if code != 0:
